@@ -5,7 +5,7 @@ import json
 import re
 
 BLANK = {
-    "e": "", "who": "", "cid": 0, "api": "", "id": 0, "body": ["empty", ""], "big": False, "large": False, "slow": False, "et": "",
+    "e": "", "who": "", "cid": 0, "api": "", "id": 0, "body": ["empty", ""], "big": False, "large": False, "slow": False, "mode": "", "et": "",
     "name": "", "events": [], "idc": "ok", "agen": 0, "which": "", "feat": False,
     "status": 0, "kind": "", "inv": 0, "pl": 0, "reason": "", "net": "",
     "base": "", "gen": 0, "pk": "", "err": "", "cause": "",
@@ -245,6 +245,7 @@ def project(raw_events, scenario, bound=None):
                 o["body"] = body_label(ev.get("body"))
                 o["big"] = ev.get("size", 0) > MAX_PAYLOAD
                 o["et"] = ev.get("errType", "")
+                o["mode"] = ev.get("mode", "") or ""
                 if ev.get("slow"):
                     o["slow"] = True
                     if not ev.get("abort"):     # an upload that breaks off never completes its body
